@@ -395,6 +395,13 @@ def run(ctx):
                     got_psites.add((g, hit[0] if len(hit) == 1 else -1, ab["ids"].get(os.path.realpath(r["message"].split("`")[1]))))
             if want_psites != got_psites:
                 problems.append("parse errors of included files reported at %s, include statements that refer to an unparsable file %s" % (sorted(got_psites), sorted(want_psites)))
+            # an unresolved include is reported at the include statement; when that is in a file which is itself only included, also at
+            # the include statements through which that file is reached (review of b4f5d8c)
+            got_chain = {e for e in got_errs if e not in unresolved}
+            got_errs = [e for e in got_errs if e in unresolved]
+            want_chain = {(g, i) for g, i, _ in chain_sites({f for f, _ in unresolved if f not in ab["inputs"]})}
+            if got_chain != want_chain:
+                problems.append("missing files reported through including files at %s, expected at %s" % (sorted(got_chain), sorted(want_chain)))
             if set(got_errs) != unresolved:
                 problems.append("include errors %s, unresolved includes %s" % (sorted(got_errs), sorted(unresolved)))
             stats["include errors"] += len(got_errs)
@@ -430,7 +437,7 @@ def run(ctx):
             real_ids = [ab["ids"][c] for c in real_files]
             model_users = sorted(f for f in m["users"] if ab["readable"][f])
             real_users = sorted(ab["ids"][c] for c, u in flags.items() if u)
-            real_bad = sorted({(g, i) for g, i, _ in got_sites | got_psites})
+            real_bad = sorted({(g, i) for g, i, _ in got_sites | got_psites} | got_chain)
             if model_reads != real_ids or model_users != real_users or m["errors"] != got_errs or sorted(set(map(tuple, m["bad"]))) != real_bad:
                 l2 += 1
                 ctx.violation("includes-correspondence", dict(rp, stage="L2", model={"reads": model_reads, "users": model_users, "errors": m["errors"], "bad": sorted(m["bad"])},
